@@ -145,7 +145,7 @@ impl Prop for C18 {
         "C18"
     }
     fn rule(&self) -> String {
-        format!("case = (type: Knot, Poly0..8, Log<PolyK>, IntOfLog<PolyK>, IntOfLogPoly4, bare / Segment<_> / Piecewise<_> with 0..=16 segments; format uniform over the {} formats of this build ({:?}); numbers: hard table (subnormals, -0.0, ±MAX, MIN_POSITIVE and its predecessor, 17-digit decimals, 2^53+1, f16/f32 boundary values that serde_cbor's float shrinking must not confuse), full-range random bit patterns, moderate values, integers; ±inf only for the binary formats (JSON has no inf)). Oracle: decode(encode(v)) == v AND the flattened numbers (direct field access) are bit-identical. This build: borsh feature {}. Non-trivial: the value contains a number that is not integer-valued and (Piecewise) has >= 2 segments.", NFMT, &FMT_NAMES[..NFMT as usize], if NFMT == 3 { "ON (serde formats are exercised again in this configuration)" } else { "OFF" })
+        format!("case = (type: Knot, Poly0..8, Log<PolyK>, IntOfLog<PolyK>, IntOfLogPoly4, bare / Segment<_> / Piecewise<_> with 0..=16 segments, and (1 case in 200, plus a deterministic boundary scope) MANY segments: 2^k-1, 2^k, 2^k+1 for k = 6..16 and random counts up to 70 000; format uniform over the {} formats of this build ({:?}); numbers: hard table (subnormals, -0.0, ±MAX, MIN_POSITIVE and its predecessor, 17-digit decimals, 2^53+1, f16/f32 boundary values that serde_cbor's float shrinking must not confuse), full-range random bit patterns, moderate values, integers; ±inf only for the binary formats (JSON has no inf)). Oracle: decode(encode(v)) == v AND the flattened numbers (direct field access) are bit-identical. This build: borsh feature {}. Non-trivial: the value contains a number that is not integer-valued and (Piecewise) has >= 2 segments.", NFMT, &FMT_NAMES[..NFMT as usize], if NFMT == 3 { "ON (serde formats are exercised again in this configuration)" } else { "OFF" })
     }
     fn assumptions(&self) -> Vec<String> {
         vec!["three wire formats stand for 'serde': serde_json (float_roundtrip), serde_cbor, and borsh (feature build); a format-specific attribute for another format would not be seen".into()]
@@ -156,15 +156,25 @@ impl Prop for C18 {
     fn strategy(&self, _tier: Tier) -> BoxedStrategy<Case> {
         let finite = prop_oneof![3 => gen::from_table(HARD), 3 => gen::any_finite(), 2 => gen::moderate(30), 1 => any::<u64>().prop_map(|b| { let f = f64::from_bits(b); if f.is_finite() { f } else { 1.5 } })];
         let non_nan = prop_oneof![10 => finite.clone(), 1 => gen::from_table(&[f64::INFINITY, f64::NEG_INFINITY])];
-        ((0u8..5, 0u8..9, 0u8..3, 0u8..NFMT, 0usize..=16), vec(finite, 190), vec(non_nan, 190))
-            .prop_map(|((fam, deg, level0, fmt, npieces), fin, nn)| {
-                let level = if fam == 4 { 0 } else { level0 };
-                let unit = unit_len(fam, deg, level);
-                let n = if level == 2 { unit * npieces } else { unit };
-                let src = if fmt == 0 { &fin } else { &nn };
-                Case { fam, deg, level, fmt, nums: src[..n].iter().map(|&v| B(v)).collect() }
-            })
-            .boxed()
+        let small = ((0u8..5, 0u8..9, 0u8..3, 0u8..NFMT, 0usize..=16), vec(finite.clone(), 190), vec(non_nan, 190)).prop_map(|((fam, deg, level0, fmt, npieces), fin, nn)| {
+            let level = if fam == 4 { 0 } else { level0 };
+            let unit = unit_len(fam, deg, level);
+            let n = if level == 2 { unit * npieces } else { unit };
+            let src = if fmt == 0 { &fin } else { &nn };
+            Case { fam, deg, level, fmt, nums: src[..n].iter().map(|&v| B(v)).collect() }
+        });
+        // "any number of segments": piecewise functions with many segments, sizes around powers of two
+        // (natural buffer / pre-allocation limits) and random sizes up to 70 000
+        let sizes = prop_oneof![
+            3 => (6u32..=16, 0usize..3).prop_map(|(k, d)| (1usize << k) + d - 1),
+            1 => 17usize..70_000,
+        ];
+        let large = (0u8..4, 0u8..2, 0u8..NFMT, sizes, vec(finite, 16)).prop_map(|(fam, deg, fmt, npieces, pool)| {
+            let unit = unit_len(fam, deg, 2);
+            let nums: Vec<B> = (0..unit * npieces).map(|i| B(pool[(i * 7 + i / 16) % pool.len()])).collect();
+            Case { fam, deg, level: 2, fmt, nums }
+        });
+        prop_oneof![199 => small, 1 => large].boxed()
     }
     fn check(&self, case: &Case, ctx: &mut Ctx) -> Outcome {
         let (fam, deg) = (case.fam % 5, case.deg % 9);
@@ -205,9 +215,37 @@ impl Prop for C18 {
             },
         };
         if let Err(m) = r {
-            fail!("{} round trip of {} {} (degree {deg}) with numbers {:?}: {m}", FMT_NAMES[fmt as usize], LEVEL_NAMES[level as usize], FAM_NAMES[fam as usize], nums);
+            let shown: Vec<f64> = nums.iter().cloned().take(24).collect();
+            let m: String = m.chars().take(1200).collect();
+            fail!(
+                "{} round trip of {} {} (degree {deg}, {} segment(s), {} numbers; first numbers {:?}): {m}",
+                FMT_NAMES[fmt as usize], LEVEL_NAMES[level as usize], FAM_NAMES[fam as usize], nseg, nums.len(), shown
+            );
         }
         Outcome::Pass
+    }
+    fn extras(&self, _tier: Tier, _seed: u64, shard: u32, nshards: u32, sink: &mut dyn FnMut(Case, &'static str)) {
+        // deterministic size boundaries for every format of this build and two piece types
+        let mut n = 0u32;
+        for fmt in 0..NFMT {
+            for (fam, deg) in [(0u8, 0u8), (0, 3), (2, 1), (3, 0)] {
+                for k in [8u32, 12, 16] {
+                    for d in 0..3usize {
+                        n += 1;
+                        if n % nshards != shard {
+                            continue;
+                        }
+                        let npieces = (1usize << k) + d - 1;
+                        let unit = unit_len(fam, deg, 2);
+                        let nums: Vec<B> = (0..unit * npieces).map(|i| B(HARD[8 + (i * 5 + i / 9) % 12] + i as f64)).collect();
+                        sink(Case { fam, deg, level: 2, fmt, nums }, "segment-count-boundaries");
+                    }
+                }
+            }
+        }
+    }
+    fn exhaustive_scopes(&self, _tier: Tier) -> Vec<String> {
+        vec!["Piecewise of 2^k-1, 2^k, 2^k+1 segments for k in {8,12,16} x 4 piece types x every format of the build".into()]
     }
     fn from_bytes(&self, u: &mut Unstructured) -> Option<Case> {
         let fam: u8 = u.arbitrary::<u8>().ok()? % 5;
